@@ -108,6 +108,63 @@ fn check_case(case: &Value, stats: &mut Stats) -> CheckResult {
     Ok(())
 }
 
+/// One position occurring hundreds of times, then unwound: the occurrence counts must come down exactly as they
+/// went up (counters that saturate or wrap on the way up drift on the way down).
+fn deep_repetition_check(case: &Value, stats: &mut Stats) -> CheckResult {
+    let (b, r) = match case_board(case, stats)? {
+        Some(x) => x,
+        None => return Ok(()),
+    };
+    let cycles = case["cycles"].as_u64().unwrap_or(300) as usize;
+    let cycle = find_cycle(&r).ok_or_else(|| Failure::new("harness: no reversible cycle from the start position"))?;
+    let mut sim = ChainSim::new(&b, &r);
+    let mut scratch = Stats::default();
+    for i in 0..cycles * 4 {
+        sim.push_legal(cycle[i % 4], (i % 6) as u8, &mut scratch)?;
+        if i % 16 == 0 || i + 8 > cycles * 4 {
+            check_calc(&sim).map_err(|f| Failure::new(format!("after {} plies: {}", i + 1, f.msg)))?;
+        }
+    }
+    let peak = sim.repetition_count();
+    // unwind completely, checking the outcome at every step
+    let mut n = sim.moves.len();
+    while n > 0 {
+        sim.apply(&Op::Pop, &mut scratch)?;
+        n -= 1;
+        check_calc(&sim).map_err(|f| Failure::new(format!("after popping back to {} plies: {}", n, f.msg)))?;
+    }
+    // and the table must be reusable afterwards
+    for i in 0..8 {
+        sim.push_legal(cycle[i % 4], 0, &mut scratch)?;
+        check_calc(&sim)?;
+    }
+    stats.label("deep_repetition");
+    stats.label_if(peak > 255, "more_than_255_occurrences");
+    stats.add("peak_occurrences", peak as u64);
+    stats.nontrivial(&(case["fen"].to_string(), cycles));
+    Ok(())
+}
+
+fn deep_driver(_ctx: &RunCtx, stats: &mut Stats, rep: &mut Reporter) {
+    let cases: Vec<Value> = [
+        r#"{"fen":"rnbqkbnr/pppppppp/8/8/8/8/PPPPPPPP/RNBQKBNR w KQkq - 0 1","cycles":300}"#,
+        r#"{"fen":"4k1n1/8/8/8/8/8/8/1N2K3 b - - 0 1","cycles":270}"#,
+        r#"{"fen":"4k1n1/7p/8/8/8/8/P7/1N2K3 w - - 40 9","cycles":70}"#,
+    ]
+    .iter()
+    .map(|t| serde_json::from_str(t).unwrap())
+    .collect();
+    let cases = &cases;
+    par_chunks(cases.len() as u64, stats, rep, |range, st, fails| {
+        for i in range {
+            let c = &cases[i as usize];
+            if let Err(f) = guarded("C14", "deep_repetition", deep_repetition_check, c, st) {
+                fails.push((c.clone(), f));
+            }
+        }
+    });
+}
+
 fn passes_check(case: &Value, stats: &mut Stats) -> CheckResult {
     let o = all_outcomes()[case["outcome"].as_u64().unwrap_or(0) as usize % 22];
     let f = FILTERS[case["filter"].as_u64().unwrap_or(0) as usize % 3];
@@ -174,8 +231,9 @@ pub fn property() -> Property {
                (squares, side, rights, mark) over the start position and every position currently in the chain; class = forced \
                (reference) > mandatory (insufficient material | clock >= 150 | count >= 5) > claimable (count >= 3 | clock >= 100) > none. \
                After every op chain.calc_outcome() must be in that class with a reason that applies; set_auto_outcome(f) for all three \
-               filters stores exactly what passes an independently written filter table. Outcome::passes / is_force are enumerated over \
-               all 22 outcomes x 3 filters. Non-trivial = history reaching a third occurrence with a pop before it or a look-alike \
+               filters stores exactly what passes an independently written filter table. deep_repetition: one position \
+               made to occur 70-301 times by a reversible 4-ply cycle and then unwound ply by ply with the outcome checked at every step. \
+               Outcome::passes / is_force are enumerated over all 22 outcomes x 3 filters. Non-trivial = history reaching a third occurrence with a pop before it or a look-alike \
                position (same squares, different rights/mark); distinct by case.",
         assumptions: &[
             "64-bit Zobrist collisions between different positions inside one generated game are treated as impossible (< 2^-40 per run)",
@@ -197,6 +255,15 @@ pub fn property() -> Property {
                 check: check_case,
                 configs: Configs::ReleaseOnly,
                 required: &["threefold_reached", "fivefold_reached", "threefold_with_pop", "auto_outcome_stored", "auto_outcome_filtered", "class_forced"],
+                regressions: &[],
+                exhaustive: false,
+            },
+            SubCheck {
+                name: "deep_repetition",
+                driver: Driver::Custom { run: deep_driver },
+                check: deep_repetition_check,
+                configs: Configs::ReleaseOnly,
+                required: &["deep_repetition", "more_than_255_occurrences"],
                 regressions: &[],
                 exhaustive: false,
             },
